@@ -82,6 +82,15 @@ class ModelTaps:
                 return method
             return fac
 
+        def after_init(orig):
+            def __init__(models, *a, **k):
+                n0 = len(me.t.evals)
+                orig(models, *a, **k)
+                me.check_init(models, n0)
+                me.check(models, "init", ())
+            return __init__
+
+        self.taps.patch(cmodels.Models, "__init__", after_init)
         self.taps.patch(cmodels.Models, "update_interpolation", after("update"))
         self.taps.patch(cmodels.Models, "shift_x_base", after("shift"))
         self.taps.patch(cmodels.Models, "reset_models", after("reset"))
@@ -89,6 +98,23 @@ class ModelTaps:
 
     def __exit__(self, *exc):
         return False
+
+    def check_init(self, m, n0):
+        """After the initial sampling: the value recorded for every interpolation point is the value the
+        evaluation made at that very point returned."""
+        recs = self.t.evals[n0:]
+        if len(recs) != m.npt:
+            self.out.label("init-evals!=npt")
+            return
+        for k, rec in enumerate(recs):
+            if "ret" not in rec:
+                return
+            if not (np.array_equal(rec["x_arg"], m.interpolation.point(k)) and rec["ret"][0] == m.fun_val[k]
+                    and np.array_equal(rec["ret"][1], m.cub_val[k, :]) and np.array_equal(rec["ret"][2], m.ceq_val[k, :])):
+                self.out.fail("C12.e2e.point", "initial sampling: the values recorded for interpolation point %d (%r) are "
+                              "not those of the evaluation made for it (at %r)"
+                              % (k, m.interpolation.point(k).tolist(), np.asarray(rec["x_arg"]).tolist()), kind="init")
+                return
 
     def check(self, m, kind, args):
         from cobyqa.models import build_system
